@@ -152,7 +152,10 @@ func gen(r *verifsim.Rng, tier string) (any, hx.Sched) {
 				// resolve a class that exists only as a file on the class path, on demand, through this VM
 				op.K = "autoload"
 				op.Defs = []Def{{"class", verifsim.Pick(r, loadables)}}
-				op.FaultAfter = r.Intn(2) // 0: GetOrLoadClass / GetOrLoadInterface, 1: LoadPkg
+				op.FaultAfter = r.Intn(3) // 0: GetOrLoadClass / GetOrLoadInterface, 1: LoadPkg, 2: GetOrLoadClass("\\name")
+				if op.FaultAfter == 2 && strings.HasSuffix(op.Defs[0].Name, "\\Ia") {
+					op.FaultAfter = 0
+				}
 			}
 		default:
 			op.K = "discard"
@@ -584,6 +587,8 @@ func step(o *hx.Outcome, w *W, sy *sys, m *model, k int, op Op, log *[]string, o
 		entry := "GetOrLoadClass"
 		if op.FaultAfter == 1 {
 			entry = "LoadPkg"
+		} else if op.FaultAfter == 2 {
+			entry = "GetOrLoadClass-backslash"
 		} else if strings.HasSuffix(name, "\\Ia") {
 			entry = "GetOrLoadInterface"
 		}
@@ -591,6 +596,8 @@ func step(o *hx.Outcome, w *W, sy *sys, m *model, k int, op Op, log *[]string, o
 			c, ctl = sy.vm(op.VM).GetOrLoadInterface(name)
 		} else if op.FaultAfter == 1 { // (field reused as a selector: the entry point `new X` / type hints use)
 			c, ctl = sy.vm(op.VM).LoadPkg(name)
+		} else if op.FaultAfter == 2 { // fully qualified form with a leading backslash
+			c, ctl = sy.vm(op.VM).GetOrLoadClass("\\" + name)
 		} else {
 			c, ctl = sy.vm(op.VM).GetOrLoadClass(name)
 		}
@@ -701,6 +708,23 @@ func step(o *hx.Outcome, w *W, sy *sys, m *model, k int, op Op, log *[]string, o
 		for _, d := range names {
 			checkOne(o, w, m, k, v, d, sy.goLookup(v, d), "go")
 		}
+		// argument form: a fully qualified name with a leading backslash ("\\A", what a run-time string such as
+		// `new $n` or class_exists("\\A") hands over) resolves exactly like the name without it
+		for _, d := range names {
+			if d.Kind != "class" {
+				continue
+			}
+			c1, ctl1 := sy.vm(v).GetOrLoadClass(d.Name)
+			c2, ctl2 := sy.vm(v).GetOrLoadClass("\\" + d.Name)
+			f1, f2 := c1 != nil && ctl1 == nil, c2 != nil && ctl2 == nil
+			if f1 != f2 {
+				vmk := "temp"
+				if v == 0 {
+					vmk = "base"
+				}
+				o.Violate("C12/backslash-form/GetOrLoadClass/"+vmk, fmt.Sprintf("after step %d, vm%d resolves %s: %v but \\%s: %v (history: %s)", k, v, d.Name, f1, d.Name, f2, histStr(w, k)))
+			}
+		}
 		// classes loaded on demand: registered (without loading) exactly where they were loaded
 		for _, name := range loadables {
 			var has bool
@@ -740,7 +764,7 @@ func histStr(w *W, upto int) string {
 		}
 		s := fmt.Sprintf("%d:%s@vm%d", k, op.K, op.VM)
 		if op.K == "autoload" {
-			s += "[" + op.Defs[0].Name + map[int]string{0: "", 1: " via LoadPkg"}[op.FaultAfter] + "]"
+			s += "[" + op.Defs[0].Name + map[int]string{0: "", 1: " via LoadPkg", 2: " with a leading backslash"}[op.FaultAfter] + "]"
 		}
 		if op.K == "def" {
 			var ds []string
